@@ -111,10 +111,15 @@ CLAIMED = {
         text='For all N, dimensions, oracles and masks: storage segments pairwise disjoint and in bounds (omega on the regenerated formulas); J ascending filter, K ascending complement, J ++ K a permutation of range n at every step; forward = sum of stage costs + terminal cost + half mu-weighted squared box distance along the trajectory simulated from x_init, on the flat storage (nh=0, nc=0, terminal-only inside the statement); the adjoint sweep equals the transpose of the linearised roll-out and the penalty derivative is mu(zeta - Pi zeta); the masked Riccati step satisfies the KKT system of the masked QP, minimises it with the gap as a sum of squares, and is unique under positive definiteness (Cholesky and LU through the solve contract). Partial: "gradient = Frechet derivative" is proved up to the chain rule over the N-fold composition (adjoint = tangent sensitivity + penalty derivative), the rest is monitored by exact differentiation.',
         note='Lean kernel + Mathlib; translator gen/gen_c12.py (34 regions); Eigen LDLT / PartialPivLU enter as the contract R X = B; Riccati model tied to the code to 2^-30 cond, not bit-exactly; IndexSet::update outer loop tied by hash + correspondence; IEEE rounding not modelled.',
         design='§6 C12'),
+    'C02': dict(
+        technique='Lean 4 proof of the a-posteriori distance bound and of the exact-KKT / strong-convexity certificate checkers (run at Rat by the Lean driver on every instance) + exploration of all 20 solver-stack variants on certified strongly convex QPs',
+        category='proof',
+        text='PARTIAL. Proved for every ordered field and every n, m (Props/C02.lean): kkt_error_bound (strongly monotone G, arbitrary C, D, variational normal cones: mu sum (x-x*)^2 <= eps sum |x-x*| + delta sum |y-y*|), quad_strongly_monotone, box normal cones from componentwise sign conditions, c01_certificate_implies_bound (the C01 certificate of a Converged result gives the bound), exactKKT_unique(_minimiser) and isSCCert_sound (the decidable certificates the driver evaluates exactly on each instance imply that (x*, y*) is the unique minimiser and that mu is a strong-convexity modulus), bound_from_certificates, descent_finite_termination, and the algebra of the multiplier update (no rate). NOT proved: that each stack returns Converged within the iteration limits in binary64 - that clause is explored: every instance is certified by the Lean checkers, all stacks x {ALM, stand-alone} run with default parameters, status and the sharp form of the bound are demanded; about 1% of clean-tree runs end NoProgress / MaxIter through a step-size collapse near the solution (open findings, recognised by final_gamma * L_ref < 2^-10).',
+        note='Lean kernel + Mathlib; core Rat arithmetic of the driver; independent exact active-set solve (Python Fractions) only proposes (x*, y*), the Lean checker accepts it; rounding gap measured; harness c02_run.cpp provides eval_hess_psi_prod so that NewtonTR defaults run.',
+        design='§6 C02'),
 }
 
 NOT_YET = {
-    'C02': 'machine-checked proof applies (distance bound from strong convexity + convergence monitors); model, theorems and check are being finished (checks/c02.py) - listed here until they pass on the unchanged tree',
     'C05': 'model, theorems and check exist for PANOC (checks/c05.py, Props/C05*.lean); withheld until the check exercises ZeroFPR, PANTR and PANOC-OCP as the property quantifies over them',
     'C19': 'model, theorems and check exist for PANOC (checks/c19.py, Props/C19_*.lean); withheld until the stop-injection sweeps cover every inner solver and the ALM wrapper as the property quantifies over them',
 }
